@@ -1,7 +1,8 @@
 """Which statement lines of the anchored eqsig source did the monitored executions of this run reach?
 
-Observability only (no verdict): sys.monitoring LINE events (CPython 3.12), every location disabled after its first
-hit, so the cost is one callback per distinct line of Python executed in the process. The shard records the set of
+Observability only (no verdict): sys.monitoring LINE events (CPython 3.12) local to the code objects of the eqsig package,
+every location disabled after its first hit, so the cost is one callback per distinct eqsig line executed in the process
+(a first version switched the events on globally; NumPy's text reader then made C16 4.5 times slower). The shard records the set of
 (file, line) reached inside <repo>/eqsig while the workload ran (the import of eqsig happens before start(), so
 module-level lines - defs, imports, constants - are not part of the count); the parent unions the shards and relates
 the set to the statement lines of every function of the property's anchored files (from the compiled code objects'
@@ -19,8 +20,62 @@ _ROOT = None
 _ON = False
 
 
+def _code_objects(root):
+    """every code object defined in the eqsig package under <root>: functions, methods, property accessors and what is nested
+    in them (found through the loaded modules, following __wrapped__ / __vf_orig__ of decorated callables)"""
+    import importlib
+    import inspect
+    import pkgutil
+    try:
+        import eqsig
+        for m in pkgutil.walk_packages(eqsig.__path__, 'eqsig.'):
+            try:
+                importlib.import_module(m.name)
+            except Exception:
+                pass
+    except Exception:
+        pass
+    seen = {}
+
+    def add_code(c):
+        if id(c) in seen or not c.co_filename.startswith(root):
+            return
+        seen[id(c)] = c
+        for k in c.co_consts:
+            if hasattr(k, 'co_code'):
+                add_code(k)
+
+    def add_callable(f, depth=0):
+        if depth > 6 or f is None:
+            return
+        for attr in ('__vf_orig__', '__wrapped__', '__func__'):
+            g = getattr(f, attr, None)
+            if g is not None and g is not f:
+                add_callable(g, depth + 1)
+        c = getattr(f, '__code__', None)
+        if c is not None:
+            add_code(c)
+
+    for name, mod in list(sys.modules.items()):
+        if mod is None or not (name == 'eqsig' or name.startswith('eqsig.')):
+            continue
+        for v in list(vars(mod).values()):
+            if inspect.isclass(v):
+                for w in list(vars(v).values()):
+                    if isinstance(w, property):
+                        for g in (w.fget, w.fset, w.fdel):
+                            add_callable(g)
+                    else:
+                        add_callable(w)
+            else:
+                add_callable(v)
+    return list(seen.values())
+
+
 def start(repo_dir):
-    """begin recording lines executed under <repo_dir>/eqsig (idempotent; silently unavailable before 3.12)"""
+    """begin recording lines executed under <repo_dir>/eqsig (idempotent; silently unavailable before 3.12). LINE events are
+    switched on for the code objects of the eqsig package only (set_local_events), so NumPy / SciPy / harness code runs
+    uninstrumented; every location is disabled after its first hit."""
     global _ROOT, _ON
     if _ON or not hasattr(sys, 'monitoring'):
         return False
@@ -41,9 +96,15 @@ def start(repo_dir):
         return disable
 
     mon.register_callback(mon.COVERAGE_ID, mon.events.LINE, on_line)
-    mon.set_events(mon.COVERAGE_ID, mon.events.LINE)
-    _ON = True
-    return True
+    n = 0
+    for c in _code_objects(root):
+        try:
+            mon.set_local_events(mon.COVERAGE_ID, c, mon.events.LINE)
+            n += 1
+        except Exception:
+            pass
+    _ON = n > 0
+    return _ON
 
 
 def result():
